@@ -4,6 +4,7 @@ package main
 
 import (
 	"go/token"
+	"go/types"
 	"strings"
 
 	"golang.org/x/tools/go/ssa"
@@ -54,6 +55,17 @@ func runC14E1(st *c14state) {
 		val ssa.Value
 	}
 	var sites []site
+	// the word an option is compared with: a constant, or a value taken from a table of such constants
+	// (`for _, h := range handlers { strings.CutPrefix(o, h.prefix) }`, a map keyed by option words)
+	isWord := func(v ssa.Value) bool {
+		if _, isK := v.(*ssa.Const); isK {
+			return c14isOptionWord(v)
+		}
+		if typeStr(v.Type().Underlying()) != "string" {
+			return false
+		}
+		return c14fromTable(v, c14isOptionWord)
+	}
 	eachInstrOf(st.ownerFns(), func(_ *ssa.Function, i ssa.Instruction) {
 		switch x := i.(type) {
 		case *ssa.BinOp:
@@ -61,15 +73,20 @@ func runC14E1(st *c14state) {
 				return
 			}
 			switch {
-			case c14isOptionWord(x.Y):
+			case isWord(x.Y):
 				sites = append(sites, site{x, x.X})
-			case c14isOptionWord(x.X):
+			case isWord(x.X):
 				sites = append(sites, site{x, x.Y})
 			}
 		case *ssa.Call:
 			n := calleeName(&x.Call)
-			if (n == "strings.HasPrefix" || n == "strings.CutPrefix" || n == "strings.TrimPrefix") && len(x.Call.Args) == 2 && c14isOptionWord(x.Call.Args[1]) {
+			if (n == "strings.HasPrefix" || n == "strings.CutPrefix" || n == "strings.TrimPrefix") && len(x.Call.Args) == 2 && isWord(x.Call.Args[1]) {
 				sites = append(sites, site{x, x.Call.Args[0]})
+			}
+		case *ssa.Lookup:
+			// a table keyed by the option words: `if scheme, ok := protoSchemes[o]; ok`
+			if _, isMap := x.X.Type().Underlying().(*types.Map); isMap && c14mapKeys(x.X, c14isOptionWord) {
+				sites = append(sites, site{x, x.Index})
 			}
 		}
 	})
@@ -78,6 +95,34 @@ func runC14E1(st *c14state) {
 			"the option part of a tag passes through os.Expand before the generator reads it: only ${DC} is defined there, so the documented redirect variables ($path, $host) and any other '$' in an option value are silently erased - the command still parses but no longer denotes the registered destination/options")
 	}
 	c.atLeast("C14.E1", "places where the generator recognises an option word (proto=, weight=, redirect=)", len(sites), 1)
+	// ... and what was recognised is not expanded afterwards on its way into the command
+	isOptionText := func(v ssa.Value) bool {
+		for _, s := range sites {
+			if v == s.val {
+				return true
+			}
+		}
+		return false
+	}
+	seenExp := map[*ssa.Call]bool{}
+	for _, sk := range st.sinks {
+		c14slice(sk.val, func(x ssa.Value) {
+			call, ok := x.(*ssa.Call)
+			if !ok || seenExp[call] || !c14isExpand(call) {
+				return
+			}
+			seenExp[call] = true
+			for _, a := range call.Call.Args {
+				if _, isFn := a.Type().Underlying().(*types.Signature); isFn {
+					continue
+				}
+				if c14derives(a, isOptionText) {
+					c.check("C14.E1", fnKey(call.Parent())+"|options used verbatim", call.Pos(), false,
+						"an option word the generator has recognised is passed through os.Expand on its way into the command: only ${DC} is defined there, so the documented redirect variables ($path, $host) and any other '$' in an option value are silently erased")
+				}
+			}
+		})
+	}
 	// scope check: the expansion of the route part is visible to this analysis
 	nExp := 0
 	for _, s := range st.sinks {
@@ -88,4 +133,53 @@ func runC14E1(st *c14state) {
 		})
 	}
 	c.atLeast("C14.E1", "environment expansions in the slice of a command (scope check)", nExp, 1)
+}
+
+// c14fromTable: v is read from a table (an element / field of a package-level or literal slice, array, struct or map)
+// and the constants stored in that table include one satisfying pred.
+func c14fromTable(v ssa.Value, pred func(ssa.Value) bool) bool {
+	// the value must be a load, not a computed string (o[len("weight="):] is option text, not an option word)
+	switch x := v.(type) {
+	case *ssa.UnOp:
+		if x.Op != token.MUL {
+			return false
+		}
+	case *ssa.Field, *ssa.Index, *ssa.Lookup, *ssa.Extract, *ssa.Parameter, *ssa.FreeVar, *ssa.Phi:
+	default:
+		return false
+	}
+	computed := false
+	hit := false
+	c14derives(v, func(y ssa.Value) bool {
+		switch z := y.(type) {
+		case *ssa.BinOp, *ssa.Slice:
+			if typeStr(z.Type().Underlying()) == "string" {
+				computed = true
+			}
+		case *ssa.Call:
+			computed = true
+		case *ssa.Const:
+			if pred(z) {
+				hit = true
+			}
+		}
+		return false
+	})
+	return hit && !computed
+}
+
+// c14mapKeys: the map value m is built (here, or by a package initialiser) with constant keys, one of which satisfies pred.
+func c14mapKeys(m ssa.Value, pred func(ssa.Value) bool) bool {
+	hit := false
+	c14derives(m, func(y ssa.Value) bool {
+		if mm, ok := y.(*ssa.MakeMap); ok && mm.Referrers() != nil {
+			for _, r := range *mm.Referrers() {
+				if mu, ok := r.(*ssa.MapUpdate); ok && mu.Map == mm && pred(mu.Key) {
+					hit = true
+				}
+			}
+		}
+		return false
+	})
+	return hit
 }
